@@ -18,6 +18,8 @@ func quoteChars(kind string) string {
 	switch kind {
 	case "csv":
 		return "\""
+	case "csvq":
+		return "'"
 	default:
 		return "'\""
 	}
